@@ -78,6 +78,8 @@ def _symbolic_inputs(cfg: dict):
     if cfg['hook_faults']:
         s.kb = SInt('kb')
         s.ka = SInt('ka')
+    if cfg.get('post_write') and cfg['with_z']:
+        s.zpost = SFloat('zpost')
     tol = SFloat('tol') if cfg['tol'] == 'sym' else cfg['tol']
     min_iter = SInt('min_iter') if cfg['min_iter'] == 'sym' else cfg['min_iter']
     offset = SInt('offset') if cfg['offset'] == 'sym' else 0
@@ -380,6 +382,7 @@ def _ieee_witness(ctx: Ctx, path, cfg: dict, extra: list) -> Optional[dict]:
     inp['fs'] = [model_int(m, k.t) if isinstance(k, SInt) else int(k) for k in sc.fs]
     inp['kb'] = model_int(m, sc.kb.t) if isinstance(sc.kb, SInt) else int(sc.kb)
     inp['ka'] = model_int(m, sc.ka.t) if isinstance(sc.ka, SInt) else int(sc.ka)
+    inp['zpost'] = model_float(m, sc.zpost.t) if isinstance(sc.zpost, SFloat) else None
     inp['tol'] = model_float(m, tol.t) if isinstance(tol, SFloat) else tol
     inp['min_iter'] = model_int(m, min_iter.t) if isinstance(min_iter, SInt) else min_iter
     inp['offset'] = model_int(m, offset.t) if isinstance(offset, SInt) else offset
@@ -393,6 +396,8 @@ def _concrete_script(cfg: dict, inp: dict) -> Script:
     s.kind = list(inp['kind'])
     s.fs = list(inp['fs'])
     s.kb, s.ka = inp['kb'], inp['ka']
+    if inp.get('zpost') is not None:
+        s.zpost = np.float64(inp['zpost'])
     return s
 
 
